@@ -73,8 +73,16 @@ impl ActTask for Branch {
         let task = ctx.task();
         let state = task.state();
         if state.is_running() {
-            task.set_state(TaskState::Completed);
-            return Ok(true);
+            // the branch is done when every task started directly beneath it is done
+            // (lifecycle-hook acts aside)
+            let done = task
+                .children()
+                .iter()
+                .all(|t| t.state().is_completed() || t.is_event_processed());
+            if done {
+                task.set_state(TaskState::Completed);
+                return Ok(true);
+            }
         } else if state.is_skip() {
             return Ok(true);
         }
